@@ -1200,8 +1200,8 @@ func (w *_listpairsFieldListAssemblerRepr) AssembleValue() datamodel.NodeAssembl
 	case 1:
 		return w.parent.AssembleKey()
 	case 2:
-		asm := w.parent.AssembleValue()
-		return assemblerRepr(asm.(*_assembler))
+		// (an error assembler when the pair names a field the struct does not have)
+		return assemblerRepr(w.parent.AssembleValue())
 	default:
 		return _errorAssembler{fmt.Errorf("bindnode: too many values in listpairs field")}
 	}
